@@ -153,3 +153,45 @@ def _model_iso(spec, model):
         if r['name'] == spec['name']:
             return {'confirmed': not r['ok'], 'observed': r['detail'], 'expected': 'widths increasing with pressure, cumulative volume non-decreasing'}
     return {'confirmed': False, 'error': 'case not found'}
+
+
+def real_isotherm_cases():
+    """measured isotherms with the built-in thickness models (where thinning corrections can make the summed pore volumes exceed the
+    volume adsorbed, so that the cumulative curve dips below zero at its low end): the cumulative curve still ends at the liquid
+    volume adsorbed at the highest pressure used, and its increments are the reported pore volumes"""
+    import os
+    import warnings
+    import pygaps
+    import pygaps.characterisation as pgc
+    import pygaps.parsing as pgp
+    pygaps.logger.disabled = True
+    data = os.path.join(os.environ.get('PGV_REPO', '/repo'), 'docs/examples/data/characterisation')
+    for fname in ('MCM-41 N2 77.355.json', 'UiO-66(Zr) N2 77.355.json'):
+        iso = pgp.isotherm_from_json(os.path.join(data, fname))
+        for br in ('ads', 'des'):
+            for method in ('pygaps-DH', 'BJH', 'DH'):
+                name = f"real_isotherm|{fname.split(' ')[0]}|{br}|{method}"
+                try:
+                    with warnings.catch_warnings():
+                        warnings.simplefilter('ignore')
+                        r = pgc.psd_mesoporous(iso, psd_model=method, branch=br, p_limits=(0.1, 0.95))
+                    cum = numpy.asarray(r['pore_volume_cumulative'], dtype=float)
+                    lo, hi = r['limits']
+                    vols = numpy.asarray(iso.loading(branch=br, loading_basis='volume_liquid', loading_unit='cm3'), dtype=float)
+                    if br == 'des':
+                        vols = vols[::-1]
+                    top = float(vols[hi])
+                    probs = []
+                    if not numpy.isclose(cum[-1], top, rtol=1e-9):
+                        probs.append(f"cumulative curve ends at {cum[-1]:.6g}, volume adsorbed at the highest pressure used {top:.6g} (lowest value of the curve {cum.min():.4g})")
+                except Exception as exc:
+                    probs = [f"{type(exc).__name__}: {exc}"[:160]]
+                yield {'name': name, 'ok': not probs, 'detail': '; '.join(probs)}
+
+
+@replayer('c16.real')
+def _real(spec, model):
+    for r in real_isotherm_cases():
+        if r['name'] == spec['name']:
+            return {'confirmed': not r['ok'], 'observed': r['detail'], 'expected': 'the cumulative curve ends at the volume adsorbed at the highest pressure used'}
+    return {'confirmed': False, 'error': 'case not found'}
